@@ -96,12 +96,20 @@ async def consumer(child, script, rec):
         rec.errors.append(e)
 
 
+class YieldingLock(Lock):
+    """a fair lock: having released, it lets the event loop run other tasks before its holder continues"""
+
+    async def __aexit__(self, *a_):
+        await Lock.__aexit__(self, *a_)
+        await Susp("released")
+
+
 class System:
     def __init__(self, cfg):
         self.cfg = cfg
         self.sched = Sched()
         self.src = make_source(cfg["items"], cfg["susp"])
-        self.lock = Lock(self.sched) if cfg["lock"] else None
+        self.lock = (YieldingLock(self.sched) if cfg["lock"] == "yielding" else Lock(self.sched)) if cfg["lock"] else None
         n = len(cfg["scripts"])
         self.tee = a.tee(self.src, n, lock=self.lock) if self.lock else a.tee(self.src, n)
         self.children = list(self.tee)
@@ -332,8 +340,8 @@ def run(tier, seed):
             rep.violation("tee:%s" % bad[0], {"config": {"lock": cfg["lock"], "susp": cfg["susp"], "items": len(cfg["items"]), "scripts": cfg["scripts"]},
                                              "schedule": actions, "why": bad[1]})
             return
-        if cfg["lock"] or cfg["susp"] == 0:
-            texts.append(coq_case(cfg, actions, sysm, snaps))
+        if (cfg["lock"] or cfg["susp"] == 0) and cfg["lock"] != "yielding":
+            texts.append(coq_case(cfg, actions, sysm, snaps))    # (the model has no step for a lock that suspends on release)
 
     cap = 1500 if tier == "quick" else 60000
     for cfg in configs(tier, rng):
@@ -361,6 +369,11 @@ def run(tier, seed):
     for _ in range(nrand):
         cfg = random_cfg(rng, tier)
         actions = random_schedule(cfg, rng, cancel_prob=0.08)
+        handle(cfg, actions)
+    # a user lock that suspends after releasing: the property's predicates on random schedules (no model comparison)
+    for _ in range(nrand // 2):
+        cfg = dict(random_cfg(rng, tier), lock="yielding")
+        actions = random_schedule(cfg, rng, cancel_prob=0.05)
         handle(cfg, actions)
     # the handle: after any sequential progress, tee.aclose() / `async with tee` closes every child (advanced or not),
     # deregisters every buffer and closes the source exactly once
